@@ -121,6 +121,31 @@ def run(chk):
           dotted(a) is not None for a in c.args)
       chk.ob('C11-R1', ok, None, 'BuildTreeForCombine(expression, operator, body, text)',
              'called as %s' % norm(c, 80), fi=v.fi, node=c, nontrivial=False)
+  # `Op{e :- one_conjunct}`: the body of a combine is a conjunction even when
+  # it has a single conjunct - every parse of a body that reaches
+  # BuildTreeForCombine asks ParseConjunction for that (siblings agree)
+  pm = repo.by_name('parse')
+  n_body = 0
+  for q, fi_ in sorted(pm.funcs.items()):
+    if not any(isinstance(c, ast.Call) and call_tail(c) == 'BuildTreeForCombine'
+               for c in walk_local(fi_.node)):
+      continue
+    w = FnView.of(repo, fi_)
+    for n, c in w.all_calls():
+      if call_tail(c) != 'BuildTreeForCombine' or len(c.args) < 3:
+        continue
+      body = w.expand(c.args[2], 3)
+      for pc in ast.walk(body):
+        if isinstance(pc, ast.Call) and call_tail(pc) == 'ParseConjunction':
+          n_body += 1
+          flag = kwarg(pc, 'allow_singleton', 1)
+          chk.ob('C11-R1', isinstance(flag, ast.Constant) and flag.value is True, None,
+                 '%s parses the body of the combine as a conjunction of one or more conjuncts' % q,
+                 '`%s`: a body with exactly one conjunct parses to None and the combine is built '
+                 'without its body - `Sum{1 :- P(x)}` aggregates over nothing while the long '
+                 '`combine` form and `~P(x)` keep the body' % norm(pc, 60), fi=fi_, node=c)
+  if n_body < 3:
+    raise AnalysisError('bodies of combines: %d ParseConjunction sites recognised' % n_body)
   # the result dict of BuildTreeForCombine vs the combine inside NegationTree
   res = None
   for x in walk_local(btc.node):
